@@ -565,3 +565,68 @@ def r_modifier_rotate(cx):
               "anchor-missing: no rotate_left in split_into_parameters (the handling of prefix modifiers changed shape)",
               cx.where(f.d["span"]))
     cx.count("R-MODIFIER-ROTATE", "rotations", n)
+
+
+# ---------------------------------------------------------------------------------------------------------------------
+# R-NORMALIZE-ORDER (C16): the ordered string replacements of the tokenizer form a one-pass normal form
+
+def _replace_chain(f):
+    out = []
+    for bb in f.rpo():
+        t = f.term(bb)
+        if t["k"] == "call" and (f.callee(t) or "").endswith("::replace"):
+            a = f.arg_terms(bb)
+            pair = []
+            for x in a[1:3]:
+                x = mir.strip_refs(x)
+                if x[0] == "const" and isinstance(x[2], tuple) and x[2][0] in ("str", "char"):
+                    pair.append(x[2][1])
+                else:
+                    pair.append(None)
+            if len(pair) == 2:
+                out.append((bb, pair[0], pair[1]))
+    return out
+
+
+@rule("R-NORMALIZE-ORDER", ["C16"])
+def r_normalize_order(cx):
+    """`normalize` canonicalises a definition by a fixed sequence of literal replacements, applied once each. For the
+    result to be a normal form (normalising twice = normalising once; spelling variants with extra blanks end up
+    equal) a later replacement must not be able to create an occurrence of an earlier one's pattern. The replacements
+    that delete a blank next to a symbol (" =" -> "=", "= " -> "=", ...) join the symbol to its neighbour, so every
+    replacement whose pattern is that symbol together with a neighbouring character ("₀=" -> "_0=") has to come after
+    them. And split_into_steps turns both CR LF and a bare CR into LF before it splits lines."""
+    f = cx.f.fn("<T as token::Tokenize>::normalize")
+    chain = _replace_chain(f)
+    n = 0
+    for j, (bbj, fj, tj) in enumerate(chain):
+        if fj is None or tj is None or not (len(fj) == len(tj) + 1 and fj.replace(" ", "", 1) == tj and " " in fj):
+            continue
+        sym = tj
+        before = fj.startswith(" ")   # " =" joins the symbol to what precedes it
+        for i, (bbi, fi, ti) in enumerate(chain):
+            if fi is None or i == j or fi in (fj,) or len(fi) <= len(sym):
+                continue
+            creates = (before and fi.endswith(sym) and not fi[:-len(sym)].isspace()) or \
+                      (not before and fi.startswith(sym) and not fi[len(sym):].isspace())
+            if not creates:
+                continue
+            n += 1
+            ok = i > j
+            cx.ob("R-NORMALIZE-ORDER", "normalize/%r-after-%r" % (fi, fj), ok,
+                  "the replacement of %r comes after the one of %r that can create its pattern" % (fi, fj) if ok else
+                  "normalize replaces %r before it removes blanks by %r -> %r: `x %s` is left alone by the first and "
+                  "turned into its pattern by the second, so the text is not in normal form after one pass and spelling "
+                  "variants with blanks differ" % (fi, fj, tj, sym), cx.where(f.term(bbi)["span"]))
+    cx.count("R-NORMALIZE-ORDER", "ordered_pairs", n)
+    g = cx.f.fn("<T as token::Tokenize>::split_into_steps")
+    chain = _replace_chain(g)
+    froms = [x[1] for x in chain]
+    tos = {x[1]: x[2] for x in chain}
+    ok = "\r\n" in froms and "\r" in froms and tos.get("\r\n") == "\n" and tos.get("\r") == "\n" and \
+        froms.index("\r\n") < froms.index("\r")
+    cx.ob("R-NORMALIZE-ORDER", "split_into_steps/line-endings", ok,
+          "split_into_steps maps CR LF and then a bare CR to LF before splitting lines" if ok else
+          "split_into_steps does not map both CR LF and a bare CR to LF (in this order) before it splits the text into "
+          "lines: comments and continuation colons are then cut differently for such texts",
+          cx.where(g.d["span"]))
